@@ -305,6 +305,23 @@ func c16Wire(w *explore.Worker, c c16Case, fail func(clause, detail string)) {
 		if !told {
 			fail("live-session-not-told-its-new-access", "")
 		}
+		// an edit whose access field is shorter than 8 bytes: what the session is told is what the account holds
+		cl.New()
+		sid = adm.Req(ref.TSetUser, ref.F(ref.FUserLogin, obf("u")), ref.FS(ref.FUserName, "U"), ref.F(ref.FUserPassword, []byte{0}), ref.F(ref.FUserAccess, []byte{0, 0x40, 0, 0, 0}))
+		world.Quiet()
+		if acc := wd.Srv.AccountManager.Get("u"); acc != nil {
+			for _, t := range cl.New() {
+				if t.Type == ref.TUserAccess {
+					a2, _ := t.Get(ref.FUserAccess)
+					var g2 [8]byte
+					copy(g2[:], a2)
+					if ref.And(g2, ref.DefinedMask) != ref.And([8]byte(acc.Access), ref.DefinedMask) {
+						fail("access-notification-differs-from-the-account-after-short-field", fmt.Sprintf("live session was sent %x, the account holds %x", a2, acc.Access[:]))
+					}
+				}
+			}
+			nb = ref.And([8]byte(acc.Access), ref.DefinedMask)
+		}
 		// the account is renamed with the multi-account editor, then edited again under its new login: the
 		// live session still follows
 		rid := adm.Req(ref.TUpdateUser, ref.F(ref.FData, subFields(ref.F(ref.FData, obf("u")), ref.F(ref.FUserLogin, obf("u2")), ref.FS(ref.FUserName, "U"), ref.F(ref.FUserPassword, []byte{0}), ref.F(ref.FUserAccess, nb[:]))))
